@@ -41,6 +41,12 @@ type Writer struct {
 	Stalled bool
 	// NoYield suppresses the scheduling point on unstalled writes.
 	NoYield bool
+	// Pieces makes the file take every write of more than three bytes in two
+	// pieces with a scheduling point in between (io.Writer promises no
+	// atomicity: a buffered file, a pipe under back-pressure, a socket to a log
+	// shipper all do this). Two callers that are not serialised then tear
+	// each other's lines.
+	Pieces bool
 	// Sink receives every completed line (shared between several writers when
 	// one log is fed by several instances).
 	Sink *[]*Line
@@ -91,7 +97,18 @@ func (w *Writer) Write(b []byte) (int, error) {
 		w.Sim.Y("alog.write:" + w.Tag)
 	}
 	w.writes++
-	rest := b
+	if w.Pieces && w.Sim != nil && len(b) > 3 {
+		k := len(b) / 2
+		w.consume(b[:k], task)
+		w.Sim.Y("alog.write.second-piece:" + w.Tag)
+		w.consume(b[k:], task)
+		return len(b), nil
+	}
+	w.consume(b, task)
+	return len(b), nil
+}
+
+func (w *Writer) consume(rest []byte, task *simkern.Task) {
 	for {
 		i := bytes.IndexByte(rest, '\n')
 		if i < 0 {
@@ -106,7 +123,6 @@ func (w *Writer) Write(b []byte) (int, error) {
 		}
 		w.writes = 1
 	}
-	return len(b), nil
 }
 
 func (w *Writer) finish(task *simkern.Task) {
